@@ -51,6 +51,7 @@ type HarnessResult struct {
 	Funcs   []string
 	WallS   float64
 	Instrs  int
+	E       *Engine
 }
 
 // runHarness symbolically executes one harness and solves its obligations.
@@ -58,6 +59,7 @@ func runHarness(P *Program, h *Harness, opt solveOpts) (res *HarnessResult) {
 	start := time.Now()
 	res = &HarnessResult{H: h}
 	E := NewEngine(P)
+	res.E = E
 	E.harness = h
 	E.tb.useStrings = h.Strings
 	E.noSafety = h.NoSafety
